@@ -36,6 +36,15 @@ def _build(ex, N, G):
     n = 1 + ex.choice("njobs", N)
     g = 1 + ex.choice("ngroups", G)
     groups = [slurm_group("grp%d" % k, account="acct%d" % k, per_node_batch_size=[500, 2][k % 2], max_nodes=3) for k in range(g)]
+    gp = ex.choice("group_profile", 3)
+    for k, grp in enumerate(groups):  # optional submitter parameters: defaults / explicitly null / explicitly set (last group differs)
+        sp = grp["submitter_params"]
+        if gp == 1:
+            sp.update(resource_monitor_interval=None, num_parallel_processes_per_node=None, singularity_params=None)
+        elif gp == 2:
+            sp.update(resource_monitor_interval=7, num_parallel_processes_per_node=2 + k, try_add_blocked_jobs=False, verbose=True,
+                      node_setup_script="setup.sh" if k == g - 1 else None)
+            sp["hpc_config"]["hpc"].update(partition="debug" if k == g - 1 else None, mem="0", nodes=2)
     kw = HOOK_SETS[ex.choice("hooks", len(HOOK_SETS))]
     config = GenericCommandConfiguration(submission_groups=groups, **kw)
     used = set()
@@ -82,6 +91,13 @@ def k_roundtrip(N=3, G=3):
                  "C17: lifecycle commands changed by the round trip")
         ex.check([x.dict() for x in loaded.submission_groups] == [x.dict() for x in config.submission_groups],
                  "C17: submission groups changed by the round trip")
+        from jade.models import SubmitterParams
+
+        for g1, g2 in zip(config.submission_groups, loaded.submission_groups):
+            for f in SubmitterParams.__fields__:  # field by field: dict() may hide a dropped field on both sides
+                ex.check(getattr(g1.submitter_params, f) == getattr(g2.submitter_params, f) and g1.name == g2.name,
+                         "C17: a submitter parameter of a group changed by the round trip", group=g1.name, field=f,
+                         before=str(getattr(g1.submitter_params, f))[:80], after=str(getattr(g2.submitter_params, f))[:80])
         # a second generation (file -> object -> file) is byte-identical
         p2 = os.path.join(d, "config2.json")
         loaded.dump(p2)
